@@ -767,7 +767,7 @@ def main():
     # ---- a proof or the correspondence broke and this run's cases show no failing input:
     # search harder (thorough-size streams under further seeds) before reporting it as such
     if (not proof_ok or harmless) and not violations and b is not None and not replay \
-            and not os.environ.get('VERIF_SUBSEARCH') and os.path.exists(BIN + '/driver'):
+            and not os.environ.get('VERIF_SUBSEARCH') and not os.environ.get('VERIF_NO_ESCALATE') and os.path.exists(BIN + '/driver'):
         budget = 300 if tier == 'quick' else 1500
         t_s = time.time()
         tried = 0
